@@ -177,8 +177,20 @@ fn vm_sel() -> impl Strategy<Value = VmSel> {
         2 => Just(VmSel::NoData),
         3 => Just(VmSel::Raw),
         3 => (0u8..4, 0u8..4).prop_map(|(a, b)| VmSel::Mbuff { data_slot: a, end_slot: if a == b { (b + 1) % 4 } else { b } }),
-        3 => (prop::sample::select(vec![0u16, 8, 16, 0x40, 0x50, 100, 1000, 4088]), prop::sample::select(vec![0u16, 8, 16, 0x40, 0x50, 108, 2000, 4096]))
-            .prop_map(|(a, b)| VmSel::Fixed { data_off: a, end_off: if (a as i32 - b as i32).abs() < 8 { a + 8 } else { b } }),
+        3 => (prop::sample::select(vec![0u16, 8, 16, 0x40, 0x50, 100, 1000, 4088]), prop::sample::select(vec![0u16, 8, 16, 0x40, 0x50, 108, 2000, 4096]), 0u8..64)
+            .prop_map(|(a, b, ov)| {
+                // one case in eight: the two 8-byte slots overlap (same slot, or 1-7 bytes apart in
+                // either order). Legal for `EbpfVmFixedMbuff::new`; the start pointer is written
+                // first and the end pointer second, so only the end slot is a whole pointer.
+                let end_off = match ov {
+                    0..=3 => a,
+                    4..=5 => a + 1 + (ov as u16 * 5 + b) % 7,
+                    6..=7 if a >= 8 => a - 1 - (ov as u16 * 5 + b) % 7,
+                    _ if (a as i32 - b as i32).abs() < 8 => a + 8,
+                    _ => b,
+                };
+                VmSel::Fixed { data_off: a, end_off }
+            }),
     ]
 }
 
@@ -272,6 +284,13 @@ impl<'a> Lower<'a> {
             VmKind::NoData => false,
             VmKind::Raw => {
                 self.emit(Insn::new(ldx_opc(8), tmp, 10, CTX_SLOT, 0));
+                true
+            }
+            VmKind::Fixed { data_off, end_off } if (data_off as i64 - end_off as i64).abs() < 8 => {
+                // overlapping slots: the end pointer is the one that survives; walk back from it
+                self.emit(Insn::new(ldx_opc(8), tmp, 10, CTX_SLOT, 0));
+                self.emit(Insn::new(ldx_opc(8), tmp, tmp, end_off as i16, 0));
+                self.emit(Insn::new(alu_opc(true, ALU_ADD, false), tmp, 0, 0, -(self.pkt_len as i32)));
                 true
             }
             VmKind::Mbuff { data_off, .. } | VmKind::Fixed { data_off, .. } => {
